@@ -19,7 +19,7 @@ from . import c01
 
 ID = "C18"
 LEVEL = "fault_enumeration"
-TECHNIQUE = "deterministic simulation with connection-level fault injection: every fault kind {EOF, reset, EOF inside a message, junk then EOF, handler exception, silent peer death (write error), TTY stdin EOF, handler exception on the TTY channel, a write() call that raises} injected at every step index of seeded multi-connection session scripts on real TCP/TTY handlers; router membership, BLOB routing, delivery to survivors and to a reconnecting peer checked"
+TECHNIQUE = "deterministic simulation with connection-level fault injection: every fault kind {EOF, reset, EOF inside a message, junk then EOF, handler exception, silent peer death (write error), TTY stdin EOF, handler exception on the TTY channel, a write() call that raises} injected at every step index of seeded multi-connection session scripts (optionally with one transient send failure on a surviving connection) on real TCP/TTY handlers; router membership, BLOB routing, delivery to survivors and to a reconnecting peer checked"
 RULE = ("scenario = session script of 2-3 concurrent connections (raw peers, a library client, optionally the TTY channel): handshakes, "
         "enableBLOB, writes, device text/BLOB updates x ONE fault (kind x step index, enumerated round-robin over the run index; two faults "
         "and more connections in the thorough tier) x network knobs; afterwards further device traffic, then a reconnect; distinct = "
